@@ -365,6 +365,54 @@ def run(ctx):
     finally:
         os.chdir(cwd0)
         shutil.rmtree(base, ignore_errors=True)
+    # ---- two test classes, each configured (set_defaults) with its own temporary directory, in one process:
+    # a failing assertion writes under the directory configured for ITS class and nowhere else
+    from tdda.referencetest.referencetest import ReferenceTest as _RT
+    base2 = T.workdir()
+    try:
+        for it in range(12 if ctx.quick else 200):
+            da, db = os.path.join(base2, 'a%d' % it), os.path.join(base2, 'b%d' % it)
+            os.makedirs(da)
+            os.makedirs(db)
+
+            class RA(_RT):
+                pass
+
+            class RB(_RT):
+                pass
+            order = [(RA, da), (RB, db)]
+            if rng.random() < 0.5:
+                order.reverse()
+            for cls, d in order:
+                cls.set_defaults(tmp_dir=d, verbose=False)
+
+            class Failed2(Exception):
+                pass
+
+            def assert_fn2(cond, msg=None):
+                if not cond:
+                    raise Failed2(msg)
+            who, mine, other = rng.choice([(RA, da, db), (RB, db, da)])
+            inst = who(assert_fn2)
+            refp = os.path.join(base2, 'ref%d.txt' % it)
+            with open(refp, 'w') as f:
+                f.write('alpha\nbeta\n')
+            case = {'scenario': 'two configured classes', 'configured_first': order[0][0].__name__, 'failing': who.__name__}
+            ctx.count(repr(case) + str(it), True)
+            ctx.bump('two_classes')
+            try:
+                inst.assertStringCorrect('alpha\nBETA\n', refp)
+                ctx.fail(case, 'a differing string passed')
+            except Failed2:
+                pass
+            if os.listdir(other):
+                ctx.fail(case, 'the failing assertion of %s wrote %r into the directory configured for the other class'
+                         % (who.__name__, sorted(os.listdir(other))[:4]))
+            elif not os.listdir(mine):
+                ctx.fail(case, 'the failing assertion of %s wrote nothing into its configured temporary directory' % who.__name__)
+    finally:
+        shutil.rmtree(base2, ignore_errors=True)
+        _RT.set_defaults(verbose=False)
     ctx.cov['rule'] = ('text: pairs as in C04 through assertStringCorrect/assertTextFileCorrect with a fresh '
                        'temporary directory and a watched data directory; binary: byte strings (0..20000 bytes) '
                        'with single-byte changes at first/last/random offsets, truncations, extensions; '
